@@ -49,8 +49,11 @@ def main():
         'confirmed_by_me': confirmed,
         'verification': {'pristine_demo': flags.get('PRISTINE_DEMO'), 'build_with_patch': flags.get('BUILD'),
                          'demo_with_patch': flags.get('PATCHED_DEMO'), 'test_suite_with_patch': results,
-                         'commands': ['cargo run --offline --example demo (pristine)', 'git apply patch.diff', 'cargo build --offline',
-                                      'cargo run --offline --example demo', 'cargo test --offline --no-fail-fast -- --skip prop_op_reordering_converges']},
+                         'commands': (['cargo test --offline --test demo (demo.rs as tests/demo.rs, pristine)', 'git apply patch.diff', 'cargo build --offline',
+                                       'cargo test --offline --test demo', 'cargo test --offline --no-fail-fast -- --skip prop_op_reordering_converges (demo moved away)']
+                                      if flags.get('DEMO_KIND') == 'test' else
+                                      ['cargo run --offline --example demo (pristine)', 'git apply patch.diff', 'cargo build --offline',
+                                       'cargo run --offline --example demo', 'cargo test --offline --no-fail-fast -- --skip prop_op_reordering_converges'])},
         'check_on_repo': {'cmd': './check %s quick' % pid, 'exit': rc, 'violation_lines': [l for l in out.splitlines() if 'rule ' in l or l.startswith('VIOLATION')][:6]},
         'caught_by_rules': caught_all, 'properties_reporting': props_hit,
         'detected': rc == 1,
